@@ -1,6 +1,7 @@
 import LospanVerif.Basic
 import LospanVerif.Driver.Aes
 import LospanVerif.Model.Cmac
+import LospanVerif.Driver.PhyIO
 /-
   verifdrv: line-protocol driver. One request per line on stdin, one answer per line on stdout.
   Evaluates the executable Model and the executable Spec on the case; the Go harness compares
@@ -8,9 +9,6 @@ import LospanVerif.Model.Cmac
 -/
 namespace LospanVerif
 namespace Driver
-
-def hx (s : String) : Option Bytes := if s == "-" then some [] else ofHex s
-def xh (bs : Bytes) : String := if bs.isEmpty then "-" else toHex bs
 
 def handleCmac : List String → String
   | [k, m] =>
@@ -34,6 +32,13 @@ def handle (line : String) : String :=
   | [] => "empty"
   | "cmac" :: rest => handleCmac rest
   | "aes" :: rest => handleAes rest
+  | "phy.dec" :: rest => handlePhyDec rest
+  | "phy.enc" :: rest => handlePhyEnc rest
+  | "phy.msg" :: rest => handlePhyMsg rest
+  | "set.ops" :: rest => handleSetOps rest
+  | "mac.enc" :: rest => handleMacEnc rest
+  | "dev.rx" :: rest => handleDevRx rest
+  | "dev.tx" :: rest => handleDevTx rest
   | op :: _ => s!"bad-op {op}"
 
 partial def loop (hin : IO.FS.Stream) (hout : IO.FS.Stream) : IO Unit := do
